@@ -375,6 +375,16 @@ def gen_far(rng, tier):
             e = rng.choice([[rng.choice(vals) for _ in range(3)], list(l), [l[0], l[1], rng.choice(vals)]])
             sc["obs"].append({"xf": {"l": l, "e": e, "R": rng.choice(ROTS)}})
         scen.append(sc)
+    # the emitter exactly on one of the listener's ears (listener +- 0.1 along its local x axis, the f32 nearest to 0.1):
+    # the direction from that ear to the emitter is the zero vector
+    for att, s in ((False, 1000), (True, 500), (False, 250)):
+        sc = geo_cfg("on-ear", 1, (1.0, 100.0), att, 0, s)
+        for R in ROTS:
+            for sign in (1.0, -1.0):
+                for l in ([0.0, 0.0, 0.0], [1.0, 0.0, -2.0], [0.5, 0.25, 0.0]):
+                    right = [R[0], R[3], R[6]]
+                    sc["obs"].append({"xf": {"l": l, "e": [f32(l[i] + f32(sign * f32(0.1) * right[i])) for i in range(3)], "R": R}})
+        scen.append(sc)
     return scen
 
 
